@@ -255,7 +255,7 @@ pub fn main(table: &[Entry]) {
                     }
                     if !vs.is_empty() {
                         acc.add(e.name, config, &mode, input, show_out(&out), vs);
-                    } else if samples.len() < 6 && ci % 97 == 3 && !out.items.is_empty() {
+                    } else if samples.len() < 6 && ci % 7 == 3 && out.items.len() >= 3 && out.items.iter().any(|i| i.ok) && (samples.len() % 2 == 0 || out.items.iter().any(|i| !i.ok)) {
                         samples.push(json!({"def": e.name, "source": def.render(), "input": String::from_utf8_lossy(input), "observed": show_out(&out)}));
                     }
                 }
@@ -304,7 +304,7 @@ pub fn main(table: &[Entry]) {
                         }
                         if !vs.is_empty() {
                             acc.add(e.name, config, &mode, input, json!({"split": k, "partial": show_out(&part), "full": show_out(&full)}), vs);
-                        } else if samples.len() < 6 && part.items.len() < full.items.len() && (ci + k) % 41 == 0 {
+                        } else if samples.len() < 6 && !part.items.is_empty() && part.items.len() < full.items.len() && k >= 3 && (ci + k) % 5 == 0 {
                             samples.push(json!({"def": e.name, "source": def.render(), "input": String::from_utf8_lossy(input), "split": k, "partial": show_out(&part), "full": show_out(&full)}));
                         }
                     }
